@@ -407,7 +407,7 @@ SPECFNS = {
     "ENV": lambda sp, be: be.resolution <= 10**15 and all(-10**15 <= e.tick <= 10**15 and e.bpm <= 10**9 and (e.bpm <= 0 or 1024 * e.bpm >= 1) for e in be.events),
     "WF": lambda sp, be: _wf(be),
     "tag": _tag, "alt": lambda sp, u, i: u,
-    "fn_result": _fn_result,
+    "fn_result": _fn_result, "same": lambda sp, a, b: a == b,
     "forall_key_absent": lambda sp, m: len(m) == 0,
     "opaque": lambda sp, *a: _not_evaluable(), "callee_ghost": lambda sp, *a: _not_evaluable(),
     "slice": lambda sp, s, lo, hi: s[int(lo):int(hi)], "append": lambda sp, s, x: list(s) + [x], "empty_ints": lambda sp: [],
